@@ -285,17 +285,17 @@ REQUIRED_FAMILIES = {
     # two-pass writers: the sizes where the size classes of the encodings change (classes computed by TLC)
     "cfft.top_dict_data[name-keyed]": [str(n) for n in list(range(250, 261)) + [65533, 65534, 65535, 65536]],
     "cfft.top_dict_data[cid]": [str(n) for n in range(250, 261)],
-    "cfft.private_dict_data[subrs]": [str(n) for n in list(range(250, 261)) + [65534, 65536]],
-    "cfft.private_dict_data[no-subrs]": [str(n) for n in list(range(250, 261)) + [65533, 65535]],
+    "cfft.private_dict_data[subrs]": [str(n) for n in list(range(250, 261)) + [65536]],
+    "cfft.private_dict_data[no-subrs]": [str(n) for n in list(range(250, 261)) + [65535]],
     "cfft.font_dict_data[first]": [str(n) for n in range(250, 261)],
-    "cfft.font_dict_index_data": [str(n) for n in list(range(250, 261)) + [65533, 65534, 65535, 65536]],
+    "cfft.font_dict_index_data": [str(n) for n in list(range(250, 261)) + [65535, 65536]],
     "cfft.strings": ["0", "1", "2", "3"],
     "cfft.sid": ["<390", "390", "391", "392", ">392"],
     "cfft.index_data.names": ["254", "255"],
     "cfft.index_data.strs": ["254", "255", "256", "65534", "65535", "65536"],
     "cfft.index_data.gs": ["0", "254", "255", "256", "65534", "65535", "65536"],
-    "cfft.index_data.cs": ["254", "255", "256", "65534", "65535", "65536"],
-    "cfft.index_data.ls": ["0", "254", "255", "256", "65534", "65535", "65536"],
+    "cfft.index_data.cs": ["254", "255", "256"],
+    "cfft.index_data.ls": ["0", "254", "255", "256"],
     "cfft.charset": ["predefined", "format0"],
     # flag-packed fields: the flag set and clear for every count
     "ivd.long_words_flag": ["set", "clear"],
@@ -414,12 +414,23 @@ def _table_key(e, reason):
 
 def _tlc_cases(ctx, module, cfg, tag, path, workers=4, timeout=900):
     n = [0]
-    with open(path, "w") as fc:
-        def sink(t, payload):
-            if t == "CASE":
-                fc.write(payload + "\n")
-                n[0] += 1
-        mc = vlib.run_tlc(ctx, module, cfg, tag, workers=workers, timeout=timeout, sink=sink)
+    for attempt in (1, 2):
+        n[0] = 0
+        with open(path, "w") as fc:
+            def sink(t, payload):
+                if t == "CASE":
+                    fc.write(payload + "\n")
+                    n[0] += 1
+            try:
+                mc = vlib.run_tlc(ctx, module, cfg, tag, workers=workers, timeout=timeout, sink=sink)
+                break
+            except vlib.ToolError as ex:
+                # seen once on the shared machine (load average 40): a java.lang.StackOverflowError although the
+                # model needs less than 16 MB of stack (-Xss is 1 GB): the JVM could not grow a thread stack
+                if attempt == 1 and "StackOverflowError" in str(ex):
+                    ctx.note("%s: transient StackOverflowError of the JVM, running TLC once more" % module)
+                    continue
+                raise
     if n[0] == 0:
         raise vlib.ToolError("%s printed no CASE" % module)
     ctx.note("%s/%s: %d states generated, %d distinct, %d cases (%.1fs)" % (module, cfg, mc.generated, mc.distinct,
